@@ -20,6 +20,7 @@ def c08_units(tier):
     n = "3" if tier == "quick" else "4"
     return [
         Unit("ready-blocked-vs-spec", ["c08.go"], "zzC08_ReadyBlocked_N" + n, {"loop": 20}, bounds="N=%s items, any states/claims/edges/epic membership, no invariant beyond Tasks[k].ID=k" % n),
+        Unit("scoped-ready", ["c08.go"], "zzC08_ScopedReady_N4", {"loop": 24, "only": "C08/"}, bounds="N=4 items in any states / edges / epic membership, ANY --epic value: what list --ready [--epic E] shows and what claim [--epic E] chooses from (real listTasks / readyTasks) = the items in scope for which the ready predicate holds"),
         Unit("claim-oldest", HSCMD, "zzCmd_ClaimOldest", dict(STUB, only="C08/"), bounds="store of 3 items; bare `claim` with any --epic filter through the real RunClaimOldestReady / readyTasks: the chosen task is ready, in scope, and no other ready task in scope is older (ties by id)"),
     ]
 
@@ -94,12 +95,13 @@ def c14_units(tier):
     return [
         Unit("new-task-epic", HS14, "zzC14_NewTaskEpic", STUB, bounds="store of 3 items + 1 pruned id obeying I1-I5; epic argument any id (live epic, task in epic, root task, unknown, pruned, empty); task or epic creation"),
         Unit("set-epic", HS14, "zzC14_SetEpic", STUB, bounds="same store; set with an epic field (any id) plus any other fields on any id"),
+        Unit("compact-keeps-references", ["c06.go", "c07.go", "c14.go", "c05.go"], "zzC05_Compact_N2", {"loop": 40, "rec": 4, "only": "C14/"}, bounds="store of 2 items (+1 pruned id) whose epic references are valid; compacted by the real compactEvents and replayed"),
         Unit("prune-keeps-references", HS14, "zzC09_PruneRun", dict(STUB, only="C14/"), bounds="store of 3 items + 1 tombstone whose epic references are valid; prune --yes through the real selectPruneTargets / runPrune and replay"),
     ]
 
 
 reg("C14", c14_units,
-    "bounded symbolic model checking of the two entry points that assign an epic (createTask, applySetUpdates/buildSetEvents) from an arbitrary store satisfying I1-I5, post-state read back through the real replay, and of prune --yes (every surviving task's epic is still live); compact/plan sides of the invariant are covered by C05/C11.",
+    "bounded symbolic model checking of the two entry points that assign an epic (createTask, applySetUpdates/buildSetEvents) from an arbitrary store satisfying I1-I5, post-state read back through the real replay, of prune --yes and of compact (every surviving task's epic is still live afterwards); the plan side is covered by C11.",
     ["L1 world stubs (symbolic store) as in C07"])
 
 
@@ -241,7 +243,7 @@ reg("C13", c13_units,
     "bounded symbolic model checking on the file model: the reader's view is the file after an arbitrary prefix of the writer's system calls (a symbolic integer), for an appending writer (1 and 2 events), compact and plan; the real reader must succeed and show the old state, the new state or - for appends - a prefix of the appended events.",
     FS_ASSUME + ["a reader's scan sees the file as of one instant (A2); a reader overlapping several writers reduces to this case because writers are serialised by the lock (C02)"])
 
-C02_CMDS = ["NewTask", "Claim", "Compact", "Plan", "Sequence", "Prune", "Set"]
+C02_CMDS = ["NewTask", "Claim", "Compact", "Plan", "Sequence", "Prune", "Set", "SetResult"]
 
 
 def c02_units(tier):
